@@ -237,6 +237,23 @@ pub fn exec(rest: &str, out: &mut Out) -> (String, bool) {
             for (name, line) in others {
                 out.oracle(line == reply, "all entry points agree", || format!("{}: {} vs parse_str_with: {}", name, line, reply));
             }
+            // the generic entry points take the LENGTH of each character from the stream: a UTF-16 source
+            // declares 2 or 4 bytes per character (whitespace included); verdict and value are the same,
+            // every offset is the UTF-8 offset re-measured in those units
+            if text.len() < 5000 {
+                let mut at16: Vec<usize> = vec![0; text.len() + 1];
+                let (mut o8, mut o16) = (0usize, 0usize);
+                for c in text.chars() { at16[o8] = o16; o8 += c.len_utf8(); o16 += 2 * c.len_utf16(); }
+                at16[o8] = o16;
+                let r16 = Value::parse_with(text.chars().map(|c| Ok::<_, ()>(decoded_char::DecodedChar::new(c, 2 * c.len_utf16()))), o);
+                let same = match (&res, &r16) {
+                    (Ok((v, cm)), Ok((v2, cm2))) => v == v2 && cm.len() == cm2.len() && cm.iter().zip(cm2.iter()).all(|((_, a), (_, b))| at16.get(a.span.start()).copied() == Some(b.span.start()) && at16.get(a.span.end()).copied() == Some(b.span.end()) && a.volume == b.volume),
+                    (Err(Error::Unexpected(p, c)), Err(Error::Unexpected(p2, c2))) => c == c2 && at16.get(*p).copied() == Some(*p2),
+                    (Err(a), Err(b)) => show_err(a, false).split(' ').nth(1) == show_err(b, false).split(' ').nth(1) && at16.get(a.span().start()).copied() == Some(b.span().start()),
+                    _ => false,
+                };
+                out.oracle(same, "a stream declaring other character lengths (UTF-16 source): same verdict and value, every offset re-measured in those units", || format!("{} / {}", reply, show_result(&r16, false)));
+            }
             oracles_str(out, &text, o, &reply, &res);
             // nothing is carried from one call to the next, or from one thread to another (every 53rd case):
             // (1) after a parse that was ABANDONED because the caller's character iterator panicked — at
